@@ -39,6 +39,18 @@ pub fn usk_op_name(op: &UskOp) -> &'static str {
     }
 }
 
+/// Index into a chain of `len` secrets: small values count from the newest secret, values from
+/// 50 000 on count from the oldest one (the tail of a long chain), anything else wraps around.
+fn chain_index(k: usize, len: usize) -> usize {
+    if len == 0 {
+        0
+    } else if k >= 50_000 && k < 50_000 + len {
+        len - 1 - (k - 50_000)
+    } else {
+        k % len
+    }
+}
+
 /// Re-assembles a user key from parts.
 struct UskParts {
     id: Vec<Vec<u8>>,
@@ -196,12 +208,12 @@ pub fn apply_usk_op(w: &mut World, user: usize, bytes: &[u8], op: &UskOp) -> Opt
             if r.1.len() < 2 {
                 return None;
             }
-            let k = *k % r.1.len();
+            let k = chain_index(*k, r.1.len());
             r.1.remove(k);
         }
         UskOp::DupSecret { i, k } => {
             let r = p.rights.get_mut(*i)?;
-            let k = *k % r.1.len().max(1);
+            let k = chain_index(*k, r.1.len().max(1));
             let s = r.1.get(k)?.clone();
             r.1.insert(k, s);
         }
@@ -210,7 +222,7 @@ pub fn apply_usk_op(w: &mut World, user: usize, bytes: &[u8], op: &UskOp) -> Opt
             if r.1.len() < 2 {
                 return None;
             }
-            let k = *k % (r.1.len() - 1);
+            let k = chain_index(*k, r.1.len() - 1);
             if r.1[k] == r.1[k + 1] {
                 return None;
             }
@@ -364,7 +376,7 @@ pub fn apply_usk_op(w: &mut World, user: usize, bytes: &[u8], op: &UskOp) -> Opt
             if p.rights[*i].1.is_empty() || p.rights[*j].1.is_empty() {
                 return None;
             }
-            let (k, l) = (&(*k % p.rights[*i].1.len()), &(*l % p.rights[*j].1.len()));
+            let (k, l) = (&chain_index(*k, p.rights[*i].1.len()), &chain_index(*l, p.rights[*j].1.len()));
             let a = p.rights[*i].1[*k].clone();
             let b = p.rights[*j].1[*l].clone();
             if a == b {
